@@ -115,6 +115,24 @@ void h_setopt_sec(void)
 	CANARY("setopt_sec");
 }
 
+/* the failure paths of the section arm release every part of the half-built instance (C07 C18; constant shape so that the
+ * leak check can speak): first titled instance of an empty option, file name set, any allocation may fail; only the
+ * failing outcomes are looked at.  (That the new slot still POINTS to the released instance is the recorded finding
+ * C18-setopt-sec-dangling of the main unit; this unit never follows that pointer.) */
+void h_setopt_sec_oom_release(void)
+{
+	cfg_t cfg; cfg_opt_t o; cfg_value_t *r; char title[2] = "t";
+	k_flags = CFGF_MULTI | CFGF_TITLE; k_cfgflags = 0; k_leftover = 0;
+	mk_ctx(&cfg); cfg.filename = "f";
+	mk_sec_opt(&o, 0);
+	r = cfg_setopt(&cfg, &o, title);
+	__CPROVER_assume(r == NULL);
+	CHECK("C18,C07", o.nvalues <= 1, "a failed section creation adds at most the new slot");
+	if (o.nvalues == 1) free(o.values[0]);
+	if (o.values) free(o.values);
+	CANARY("setopt_sec_oom_release");
+}
+
 /* ------------------------------------------------------------------------------------------------ title lookup
  * contract::cfg_opt_gettsecidx(opt, title) = index of the first instance whose title equals title (letter case ignored
  * iff the option is case-insensitive), -1 if none.  cfg_opt_gettsec: that instance / NULL; non-titled option: NULL. */
